@@ -29,6 +29,7 @@ func main() {
 		quietStderr()
 		c := newCtx(prop, dir, tier, seed)
 		R = c.R
+		round6pre(c)
 		round4(c)
 		round6(c)
 		g(c)
